@@ -2,10 +2,18 @@
  * tables fill up, tombstones build up and probe sequences wrap), and glyph drawing vs per-glyph
  * compositing / explicit mask accumulation.  A probe sequence longer than the table is reported by the
  * library hook (logical-step verdict for "lookup always terminates"). */
+#include "config.h"
+#include "pixman-private.h"       /* only for the types of the coverage hook H2 (which precision served a call) */
 #include "vf.h"
 #include "vf_req.h"
 #include "ref_pixel.h"
 #include "ref_ops.h"
+
+extern void (*pixman_verif_trace_composite) (pixman_implementation_t *imp, pixman_composite_func_t func, const pixman_fast_path_t *key);
+extern void (*pixman_verif_trace_iter) (pixman_implementation_t *imp, const pixman_iter_info_t *info, iter_flags_t iter_flags);
+static int seen_lookup, seen_wide;
+static void trace_fp (pixman_implementation_t *imp, pixman_composite_func_t func, const pixman_fast_path_t *key) { (void)imp; (void)func; (void)key; seen_lookup = 1; }
+static void trace_it (pixman_implementation_t *imp, const pixman_iter_info_t *info, iter_flags_t fl) { (void)imp; (void)info; if (fl & ITER_WIDE) seen_wide = 1; }
 
 static int HW = 16384;          /* N_GLYPHS_HIGH_WATER of the library build under test (from --config hwN) */
 #define MAXK 40000
@@ -127,15 +135,19 @@ static void draw_check (pixman_glyph_cache_t *c, vf_rng *r)
     for (int i = 0; i < n; i++) kk += snprintf (desc + kk, sizeof desc - kk, " g%d{%s %dx%d origin(%d,%d) at (%d,%d)}", i, rp_name (ent[gk[i]].fmt), ent[gk[i]].w, ent[gk[i]].h, ent[gk[i]].ox, ent[gk[i]].oy, gl[i].x, gl[i].y);
     char d2[500]; rq_describe (&q1, d2, sizeof d2);
     vf_case_desc ("%s | %s", desc, d2); vf_inflight ("%s", desc);
+    seen_lookup = seen_wide = 0; pixman_verif_trace_composite = trace_fp; pixman_verif_trace_iter = trace_it;
     if (with_mask) pixman_composite_glyphs (op, q1.src.img, q1.dst.img, mf, sx, sy, mx, my, mx + dx, my + dy, mw, mh, c, n, gl);
     else pixman_composite_glyphs_no_mask (op, q1.src.img, q1.dst.img, sx, sy, dx, dy, c, n, gl);
+    int cache_wide = seen_wide, ref_narrow = 0;
     for (int i = 0; i < n; i++) ent[gk[i]].used_hi = ++stamp;
     /* reference from the monitor's private copies */
     vf_inflight ("reference for: %s", desc);
     if (!with_mask) {
         for (int i = 0; i < n; i++) { entry_t *e = &ent[gk[i]]; pixman_image_t *g = glyph_image_from_copy (e); if (!g) continue;
             int X = dx + gl[i].x - e->ox, Y = dy + gl[i].y - e->oy;
-            pixman_image_composite32 (op, q2.src.img, g, q2.dst.img, sx + X - dx, sy + Y - dy, 0, 0, X, Y, e->w, e->h); pixman_image_unref (g); }
+            seen_lookup = seen_wide = 0;
+            pixman_image_composite32 (op, q2.src.img, g, q2.dst.img, sx + X - dx, sy + Y - dy, 0, 0, X, Y, e->w, e->h); pixman_image_unref (g);
+            if (seen_lookup && !seen_wide) ref_narrow = 1; }
     } else {
         pixman_image_t *m = pixman_image_create_bits (mf, mw, mh, NULL, 0);
         if (m) {
@@ -146,10 +158,17 @@ static void draw_check (pixman_glyph_cache_t *c, vf_rng *r)
                 if (e->fmt == mf) { pixman_image_set_component_alpha (g, 0); pixman_image_composite32 (PIXMAN_OP_ADD, g, NULL, m, 0, 0, 0, 0, X, Y, e->w, e->h); }
                 else pixman_image_composite32 (PIXMAN_OP_ADD, wh, g, m, 0, 0, 0, 0, X, Y, e->w, e->h);
                 pixman_image_unref (g); }
+            seen_lookup = seen_wide = 0;
             pixman_image_composite32 (op, q2.src.img, m, q2.dst.img, sx, sy, 0, 0, mx + dx, my + dy, mw, mh);
+            if (seen_lookup && !seen_wide) ref_narrow = 1;
             pixman_image_unref (m); if (wh) pixman_image_unref (wh);
         }
     }
+    pixman_verif_trace_composite = NULL; pixman_verif_trace_iter = NULL;
+    /* SATURATE divides by the source alpha: an 8-bit and a floating-point intermediate can then be arbitrarily far apart.  The cache route
+     * passes the operator on unreduced (float), the per-glyph route may be strength-reduced to an 8-bit operator when source and glyph are
+     * opaque; such a pair is not "the same drawing at the same precision" and is not judged */
+    if (op == PIXMAN_OP_SATURATE && cache_wide && ref_narrow) { vf_count ("draws_not_judged_saturate_at_different_precision", 1); rq_free (&q1); rq_free (&q2); return; }
     vf_count ("evaluations", (long)q1.dst.w * q1.dst.h); vf_count (with_mask ? "draws_with_mask" : "draws_no_mask", 1);
     vf_label ("draw_op_maskfmt", "%s/%s/%s", with_mask ? "mask" : "nomask", ro_op_name (op), with_mask ? rp_name (mf) : "-");
     vf_cell ("cells", vf_mix (vf_mix (500 + with_mask, op * 64 + (uint32_t)(mf >> 12 & 15)), vf_mix ((uint64_t)q1.dst.fmt, (q1.dst.n_clip > 0) + 2 * n)));
@@ -242,7 +261,8 @@ static void exhaustive_case (long idx, vf_rng *r)
         vf_case_desc ("HW=%d exhaustive history: F %s", HW, hist);
         for (int k = 0; k < NK; k++) check_lookup (c, k);
     }
-    if (nontrivial) vf_cell ("cells", vf_mix (HW, (uint64_t)idx));
+    /* a cell = the history's shape (which kind of symbol at each position, not which key): 4^L shapes */
+    if (nontrivial) { uint64_t shape = 0; long c2 = idx; for (int s2 = 0; s2 < EXL; s2++) { int sym = (int)(c2 % NSYM); c2 /= NSYM; shape = shape * 4 + (uint64_t)(sym < 2 ? sym : sym < 2 + NK ? 2 : 3); } vf_cell ("cells", vf_mix (HW * 131 + EXL, shape)); }
     vf_count ("exhaustive_histories", 1); vf_max ("max_live_entries", live_count);
     while (freeze_depth > 0) { pixman_glyph_cache_thaw (c); freeze_depth--; }
     if (idx % 100003 == 7) vf_sample ("HW=%d exhaustive history #%ld: F %s", HW, idx, hist);
